@@ -687,17 +687,20 @@ func (r *stratRoles) insertionGuards(p *Prog, res *Result, withLimit bool) {
 				}
 				methodSites++
 				// the value appended: an identifier, or x.(Info) of one — find the Info-typed variable tested
+				// a condition that is a named predicate (`if exhausted(info, limit)`) is read in the predicate's body
 				capOK := skipGuard(fn, c, func(cond ast.Expr) bool {
+					cf, cond := p.expandPredicate(fn, cond)
 					for _, d := range splitOp(cond, token.LOR) {
-						if capAtom(fn, d, nil, false) {
+						if capAtom(cf, d, nil, false) {
 							return true
 						}
 					}
 					return false
 				}) != nil
 				limOK := skipGuard(fn, c, func(cond ast.Expr) bool {
+					cf, cond := p.expandPredicate(fn, cond)
 					for _, d := range splitOp(cond, token.LOR) {
-						if limitConj(fn, d, nil) {
+						if limitConj(cf, d, nil) {
 							return true
 						}
 					}
@@ -1423,24 +1426,49 @@ func eachSelectionShape(p *Prog, r *stratRoles) string {
 		}
 	}
 	if whyC == "" {
-		// `p < limit` (or limit > p) → refusal, dominating the loop
-		g := skipGuard(F, r.loop, func(cond ast.Expr) bool {
+		// plain copies of the search result (`q := p`, neither written again) stand for it
+		isP := map[types.Object]bool{pObj: true}
+		writes := map[types.Object]int{}
+		ast.Inspect(F.Body, func(n ast.Node) bool {
+			switch y := n.(type) {
+			case *ast.AssignStmt:
+				for _, l := range y.Lhs {
+					if o := F.objOf(l); o != nil {
+						writes[o]++
+					}
+				}
+			case *ast.IncDecStmt:
+				if o := F.objOf(y.X); o != nil {
+					writes[o] += 2
+				}
+			}
+			return true
+		})
+		for changed := true; changed; {
+			changed = false
+			for _, s := range r.pre {
+				if as, ok := s.(*ast.AssignStmt); ok && len(as.Lhs) == 1 && len(as.Rhs) == 1 {
+					l, rv := F.objOf(as.Lhs[0]), F.objOf(as.Rhs[0])
+					if l != nil && rv != nil && isP[rv] && !isP[l] && writes[l] == 1 && writes[rv] == 1 {
+						isP[l] = true
+						changed = true
+					}
+				}
+			}
+		}
+		refusal := func(cond ast.Expr) bool {
 			b, ok := unparen(cond).(*ast.BinaryExpr)
 			if !ok {
 				return false
 			}
-			return (b.Op == token.LSS && F.objOf(b.X) == pObj && F.objOf(b.Y) == r.limit) || (b.Op == token.GTR && F.objOf(b.Y) == pObj && F.objOf(b.X) == r.limit)
-		})
+			return (b.Op == token.LSS && isP[F.objOf(b.X)] && F.objOf(b.Y) == r.limit) || (b.Op == token.GTR && isP[F.objOf(b.Y)] && F.objOf(b.X) == r.limit)
+		}
+		// `p < limit` (or limit > p) → refusal, dominating the loop
+		g := skipGuard(F, r.loop, refusal)
 		if g == nil {
 			// go/cfg has no node for the range statement: anchor on its operand
 			if rs != nil {
-				g = skipGuard(F, rs.X, func(cond ast.Expr) bool {
-					b, ok := unparen(cond).(*ast.BinaryExpr)
-					if !ok {
-						return false
-					}
-					return (b.Op == token.LSS && F.objOf(b.X) == pObj && F.objOf(b.Y) == r.limit) || (b.Op == token.GTR && F.objOf(b.Y) == pObj && F.objOf(b.X) == r.limit)
-				})
+				g = skipGuard(F, rs.X, refusal)
 			}
 		}
 		if g == nil {
